@@ -69,8 +69,8 @@ func (c *c40CC) UpdateState(s balancer.State) {
 	c.w.parent = &s
 	c.w.mu.Unlock()
 }
-func (c *c40CC) ResolveNow(resolver.ResolveNowOptions)  {}
-func (c *c40CC) Target() string                         { return "c40" }
+func (c *c40CC) ResolveNow(resolver.ResolveNowOptions)   {}
+func (c *c40CC) Target() string                          { return "c40" }
 func (c *c40CC) MetricsRecorder() estats.MetricsRecorder { return c.mr }
 func (c *c40CC) NewSubConn(addrs []resolver.Address, opts balancer.NewSubConnOptions) (balancer.SubConn, error) {
 	c.w.mu.Lock()
@@ -213,9 +213,9 @@ func (c *c40Child) onState(a string, sc balancer.SubConn, st balancer.SubConnSta
 		})
 	}
 }
-func (c *c40Child) ResolverError(error)                                       {}
+func (c *c40Child) ResolverError(error)                                        {}
 func (c *c40Child) UpdateSubConnState(balancer.SubConn, balancer.SubConnState) {}
-func (c *c40Child) ExitIdle()                                                 {}
+func (c *c40Child) ExitIdle()                                                  {}
 func (c *c40Child) Close() {
 	c.mu.Lock()
 	c.closed = true
@@ -269,7 +269,7 @@ var c40Menu = map[string]c40Cfg{
 	"sr":       {name: "sr", sr: true, srMin: 2, srFactor: 500, maxPct: 100, base: 20 * time.Second, maxEject: 5 * time.Second},
 	// success-rate enforced, failure-percentage detected but never enforced
 	"sr100+fp0": {name: "sr100+fp0", sr: true, srMin: 2, srFactor: 500, fp: true, fpMin: 1, fpThreshold: 50, maxPct: 100, base: 10 * time.Second, maxEject: 15 * time.Second, fixEnf: true, srEnf: 100, fpEnf: 0},
-	"sr+fp":    {name: "sr+fp", sr: true, srMin: 2, srFactor: 500, fp: true, fpMin: 1, fpThreshold: 50, maxPct: 50, base: 10 * time.Second, maxEject: 15 * time.Second},
+	"sr+fp":     {name: "sr+fp", sr: true, srMin: 2, srFactor: 500, fp: true, fpMin: 1, fpThreshold: 50, maxPct: 50, base: 10 * time.Second, maxEject: 15 * time.Second},
 }
 
 func (c c40Cfg) lb(w *c40World, enf uint32) *LBConfig {
